@@ -42,3 +42,11 @@ contract(B + "InstanceOf._validate",
          raises=[("ValidationError", "not is_np(value) and len(self.params['types']) > 0 and not "
                   "((bool in self.params['types']) if is_bool(value) else isinstance(value, self.params['types']))")],
          kinds={"self.params['types']": "tuple"}, props=PROPS_V)
+INSTANCEOF_REQ = ("dict_wf(self.params) and has(self.params,'types') and is_tuple(self.params['types']) and "
+                  "forall(lambda j: is_cls(self.params['types'][j]), len(self.params['types']))")
+INSTANCEOF_COND = ("not is_np(value) and len(self.params['types']) > 0 and not "
+                   "((bool in self.params['types']) if is_bool(value) else isinstance(value, self.params['types']))")
+contract(B + "Validator.__call__", inst="InstanceOf", requires=f"{INSTANCEOF_REQ} and {PROPERTY_OK} and is_json(value)",
+         raises=[("ValidationError", INSTANCEOF_COND)], props=PROPS_V)
+contract(B + "Validator.error_message", inst="InstanceOf", requires=INSTANCEOF_REQ, returns="is_str(result)", result_kind="str", props=["C10"], trusted=True,
+         note="message text only (str.format over params)")
